@@ -184,6 +184,10 @@ def impl(line: str) -> str:
         return common.call_impl(lambda: is_segwit(unhx(t[1])))
     if op == "funding.build":
         return _funding_call(t)[0]
+    if op == "der.len":
+        from btclib.ecc import dsa
+        return common.call_impl(lambda: len(dsa.Sig(int(t[1]), int(t[2]), check_validity=False).serialize(
+            check_validity=False)))
     if op == "amount.sats_from_btc":
         return common.call_impl(lambda: sats_from_btc(_dec(t[1:])))
     if op == "amount.btc_from_sats":
@@ -428,6 +432,26 @@ def _descriptor(tmpl):
     return S["desc"][tmpl]
 
 
+def _pad_sig(e: bytes) -> bytes:
+    if 9 <= len(e) <= 72 and e[0] == 0x30 and e[1] == len(e) - 3:
+        return e[:-1] + b"\x00" * (72 - len(e)) + e[-1:]
+    return e
+
+
+def _with_worst_case_sigs(tx):
+    from btclib.script import Witness, parse, serialize
+    vin = []
+    for tx_in in tx.vin:
+        cmds = []
+        for c in parse(tx_in.script_sig):
+            if isinstance(c, str) and not c.startswith("OP_"):
+                c = _pad_sig(bytes.fromhex(c))
+            cmds.append(c)
+        vin.append(TxIn(tx_in.prev_out, serialize(cmds), tx_in.sequence,
+                        Witness([_pad_sig(e) for e in tx_in.script_witness.stack]), check_validity=False))
+    return Tx(tx.version, tx.lock_time, vin, tx.vout, check_validity=False)
+
+
 def _o_estimate(w):
     """Psbt.estimated_weight / estimated_vsize of the unsigned psbt never below what the library's own
     signer + finalizer + extractor produce; input i spends TEMPLATES[t] at address index k."""
@@ -451,9 +475,15 @@ def _o_estimate(w):
     actual = len(tx.serialize(include_witness=True, check_validity=False)) + 3 * len(
         tx.serialize(include_witness=False, check_validity=False))
     ok = est_w >= actual == tx.weight and est_v >= tx.vsize and est_v == -(-est_w // 4)
+    # the library's signer grinds low-R, so its ECDSA signatures are 71 bytes with the sighash byte; another
+    # signer of the same psbt may emit 72: the estimate must also cover the same spend with every DER signature
+    # at that worst case (this is what makes an estimate one byte short visible)
+    worst = _with_worst_case_sigs(tx).weight
+    ok = ok and est_w >= worst
     # and not wastefully above: at most 1 byte per signature slack (71/72) plus unused multisig slots is expected,
     # a whole missing element is not
-    return ok, f"{[TEMPLATES[t] for t, _, _ in w['inputs']]} est={est_w} actual={actual} vsize {est_v}>={tx.vsize}"
+    return ok, (f"{[TEMPLATES[t] for t, _, _ in w['inputs']]} est={est_w} actual={actual} worst-case-sigs={worst} "
+                f"vsize {est_v}>={tx.vsize}")
 
 
 
@@ -827,6 +857,12 @@ def _run_sizes(ctx):
 
 def _run_estimate(ctx):
     rng = ctx.rng
+    lines = []
+    for _ in range(ctx.n(400)):
+        bits = [rng.choice([1, 7, 8, 9, 15, 16, 127, 128, 247, 248, 249, 254, 255, 256]) for _ in range(2)]
+        r, s_ = [max(1, rng.getrandbits(b) | (1 << (b - 1)) if rng.random() < 0.7 else rng.getrandbits(b)) for b in bits]
+        lines.append(f"der.len {r} {s_}")
+    ctx.stream("der.len", lines)
     # every template alone (two address indexes, default and explicit sighash), then random mixes
     for t in range(len(TEMPLATES)):
         for k in (0, rng.randrange(1, 50)):
